@@ -115,20 +115,16 @@ Example ex_clone :
   schema_obs_eq ex_pv ex_exec ex_sub ((fun d : nat => d) ((fun d => S d) ((fun d => d) 5%nat))) ((fun d : nat => d) 5%nat).
 Proof. repeat split. Qed.
 
-(** the two struct decoders on a non-canonical object: member names in other letter cases, an
-    explicit null, unsorted variables, an extensions member, an unknown member *)
+(** a non-canonical object (member names in other letter cases, an explicit null, unsorted
+    variables, an extensions member, an unknown member) read as POST body and as socket payload *)
 Definition ex_alias : list (bytes * json) :=
   [ (b "QUERY", JStr (b "{a}")); (b "operationname", JNull);
     (b "Variables", JObj [(b "z", JNum 4607182418800017408%N); (b "a", JNull)]);
     (b "extensions", JObj []); (b "zzz", JArr [JBool true]) ].
-Example ex_alias_hyps :
-  fold_members StdJson ex_alias = fold_members Jsoniter ex_alias /\
-  has_range (JObj ex_alias) = false /\ single_string_members (fold_members StdJson ex_alias) = true.
-Proof. split; [|split]; vm_compute; reflexivity. Qed.
 Example ex_alias_agree :
   option_map body_op (decode_struct StdJson true (JObj ex_alias)) =
   Some {| o_query := b "{a}"; o_vars := Some [(b "a", JNull); (b "z", JNum 4607182418800017408%N)]; o_opname := [] |}
-  /\ option_map body_op (decode_struct Jsoniter false (JObj ex_alias)) = option_map body_op (decode_struct StdJson true (JObj ex_alias)).
+  /\ option_map body_op (decode_struct StdJson false (JObj ex_alias)) = option_map body_op (decode_struct StdJson true (JObj ex_alias)).
 Proof. split; vm_compute; reflexivity. Qed.
 
 (** ** stage B: the byte-level theorems.  A number layer that knows one number: 7 *)
@@ -159,7 +155,7 @@ Example ex_bytes_body :
 Proof. split; vm_compute; reflexivity. Qed.
 
 Example ex_roundtrip_bytes : forall t, carries t ex_o = true ->
-  decode fixed (JsonText.parse_text StdJson ex_numval) (JsonText.parse_text Jsoniter ex_numval)
+  decode fixed (JsonText.parse_text StdJson ex_numval) (JsonText.parse_text StdJson ex_numval)
          (encode (JsonText.print ex_numprint) t (b "1") ex_o) = Some (ex_o, None).
 Proof.
   intros t Ct. destruct ex_num_hyps as (H1 & H2 & H3 & H4).
